@@ -2,6 +2,7 @@
 import json
 
 import common
+import simple
 import exectrace
 
 
@@ -31,6 +32,7 @@ def check(run, only=None):
     run.traces += len(vecs) - run.oom
 
     if only is None:
+        simple.tags_src(run, "C06")
         # binding T: seeded random programs over the whole schema, accepted by TLC against the reference executor
         exectrace.run_exec_trace(run, 20000 if run.tier == "thorough" else 1000, 6)
 
